@@ -169,32 +169,30 @@ SDIR_EXTENSION = b"sdir"  # Sparse directory extension
 
 
 def _encode_varint(value: int) -> bytes:
-    """Encode an integer using variable-width encoding.
+    """Encode an integer using git's variable-width "offset" encoding.
 
-    Same format as used for OFS_DELTA pack entries and index v4 path compression.
-    Uses 7 bits per byte, with the high bit indicating continuation.
+    Same format as used for OFS_DELTA pack entries and index v4 path
+    compression (git's varint.c): 7 bits per byte, most significant group
+    first, the high bit indicating continuation, and each continuation
+    adding one so that every value has exactly one encoding.
 
     Args:
       value: Integer to encode
     Returns:
       Encoded bytes
     """
-    if value == 0:
-        return b"\x00"
-
-    result = []
+    result = [value & 0x7F]
+    value >>= 7
     while value > 0:
-        byte = value & 0x7F  # Take lower 7 bits
+        value -= 1
+        result.append(0x80 | (value & 0x7F))
         value >>= 7
-        if value > 0:
-            byte |= 0x80  # Set continuation bit
-        result.append(byte)
-
+    result.reverse()
     return bytes(result)
 
 
 def _decode_varint(data: bytes, offset: int = 0) -> tuple[int, int]:
-    """Decode a variable-width encoded integer.
+    """Decode a variable-width encoded integer (see _encode_varint).
 
     Args:
       data: Bytes to decode from
@@ -203,14 +201,17 @@ def _decode_varint(data: bytes, offset: int = 0) -> tuple[int, int]:
       tuple of (decoded_value, new_offset)
     """
     value = 0
-    shift = 0
     pos = offset
+    first = True
 
     while pos < len(data):
         byte = data[pos]
         pos += 1
-        value |= (byte & 0x7F) << shift
-        shift += 7
+        if first:
+            value = byte & 0x7F
+            first = False
+        else:
+            value = ((value + 1) << 7) + (byte & 0x7F)
         if not (byte & 0x80):  # No continuation bit
             break
 
@@ -299,7 +300,7 @@ def _decompress_path_from_stream(
     """
     # Decode the varint for remove_len by reading byte by byte
     remove_len = 0
-    shift = 0
+    first = True
     bytes_consumed = 0
 
     while True:
@@ -308,8 +309,11 @@ def _decompress_path_from_stream(
             raise ValueError("Unexpected end of file while reading varint")
         byte = byte_data[0]
         bytes_consumed += 1
-        remove_len |= (byte & 0x7F) << shift
-        shift += 7
+        if first:
+            remove_len = byte & 0x7F
+            first = False
+        else:
+            remove_len = ((remove_len + 1) << 7) + (byte & 0x7F)
         if not (byte & 0x80):  # No continuation bit
             break
 
